@@ -150,7 +150,30 @@ func unexportedName(f *ssa.Function) bool {
 		n = o.Name()
 	}
 	r, _ := utf8.DecodeRuneInString(n)
-	return !unicode.IsUpper(r)
+	if !unicode.IsUpper(r) {
+		return true
+	}
+	// an exported plain function of an internal package is private to the module all the
+	// same (code moved out of a big package has to be exported there): a helper like any
+	// other — except the value primitives the engines have contracts for, and the transport
+	if f.Signature.Recv() == nil && f.Pkg != nil {
+		path := f.Pkg.Pkg.Path()
+		if strings.Contains(path, "/internal/") && !modulePrimitivePkg(path) {
+			return true
+		}
+	}
+	return false
+}
+
+// modulePrimitivePkg: internal packages whose functions stay calls in every view — the
+// conversions E1/E2 model by contract (BCD, complements) and the UDP transport.
+func modulePrimitivePkg(path string) bool {
+	for _, p := range []string{"/internal/pkg/bcd", "/internal/pkg/complement", "/internal/pkg/transport"} {
+		if strings.HasSuffix(path, p) {
+			return true
+		}
+	}
+	return false
 }
 
 // spliceTarget returns the callee to splice at this call, or nil.
